@@ -787,6 +787,24 @@ static void vs_atomic_hook(int kind, const volatile void *var) {
     }
 }
 
+/* The runner's own allocations (script lines, DFS frontier) must not show up as leaks in a child's leak check:
+ * everything the parent allocates is allocated with leak detection disabled; the child re-enables it. */
+#ifdef VS_TSAN
+static void vs_lsan_disable(void) {
+}
+static void vs_lsan_enable(void) {
+}
+#else
+void __lsan_disable(void);
+void __lsan_enable(void);
+static void vs_lsan_disable(void) {
+    __lsan_disable();
+}
+static void vs_lsan_enable(void) {
+    __lsan_enable();
+}
+#endif
+
 /* ---- child side: run one execution */
 static void vs_parse_policy(char **tok, int ntok) {
     memset(&vs_src, 0, sizeof(vs_src));
@@ -836,6 +854,7 @@ static void vs_run_child(vs_scenario_fn scenario, char **lines, int nlines) {
     vs_debug = getenv("VS_DEBUG") != NULL;
     aws_verif_atomic_hook = vs_atomic_hook;
     vh_alloc_point = vs_point;
+    vs_lsan_enable();
     vs_is_active = true;
     scenario(lines, nlines);
     /* every thread the scenario (or the library on its behalf) created must have exited by now */
@@ -1027,6 +1046,7 @@ int vs_main(int argc, char **argv, vs_scenario_fn scenario) {
         perror(argv[1]);
         return 3;
     }
+    vs_lsan_disable();
     vh_open(argv[2]);
     setvbuf(vh_out, NULL, _IOLBF, 0); /* parent and children share the descriptor: keep lines whole */
     vh_install_handlers(0);
